@@ -25,6 +25,12 @@ def stale_spec(rng, vapp_models):
                            'related': 'vapp.%s' % rng.choice(vapp_models)})
         if i > 0 and rng.random() < 0.7:
             fields.append({'name': 'pals', 'type': 'ManyToManyField', 'attrs': {}, 'related': 'yapp.%s' % names[0]})
+        if vapp_models and rng.random() < 0.6:
+            # several many-to-many fields on one model: each owns an automatically created table
+            fields.append({'name': 'mates', 'type': 'ManyToManyField', 'attrs': {}, 'related': 'vapp.%s' % rng.choice(vapp_models)})
+            if rng.random() < 0.6:
+                fields.append({'name': 'fans', 'type': 'ManyToManyField', 'attrs': {},
+                               'related': 'vapp.%s' % rng.choice(vapp_models)})
         # table names that are prefixes of other tables of the project
         table = rng.choice(['vapp_al', 'yapp_%s' % n.lower(), 'vapp'])
         if any(m['table'] == table for m in models):
@@ -43,8 +49,15 @@ def setup_project(rng, seed, with_stale=True):
                   {'name': 'id', 'type': 'AutoField', 'attrs': {'primary_key': True}, 'related': None},
                   {'name': 'n', 'type': 'IntegerField', 'attrs': {'null': True}, 'related': None},
                   {'name': 'link', 'type': 'ForeignKey', 'attrs': {'null': True}, 'related': 'vapp.%s' % rng.choice(vnames)},
-                  {'name': 'many', 'type': 'ManyToManyField', 'attrs': {}, 'related': 'vapp.%s' % rng.choice(vnames)}]}
+                  {'name': 'many', 'type': 'ManyToManyField', 'attrs': {}, 'related': 'vapp.%s' % rng.choice(vnames)},
+                  {'name': 'more', 'type': 'ManyToManyField', 'attrs': {}, 'related': 'vapp.%s' % rng.choice(vnames)}]}
     spec['apps'].append({'id': 'wapp', 'models': [wmodel]})
+    # a model of the evolved app with two many-to-many fields (a DeleteModel candidate)
+    spec['apps'][0]['models'].append({
+        'name': 'Hub', 'table': 'vapp_hub', 'unique_together': [], 'index_together': [], 'indexes': [], 'constraints': [],
+        'fields': [{'name': 'id', 'type': 'AutoField', 'attrs': {'primary_key': True}, 'related': None},
+                   {'name': 'spokes', 'type': 'ManyToManyField', 'attrs': {}, 'related': 'vapp.%s' % rng.choice(vnames)},
+                   {'name': 'rims', 'type': 'ManyToManyField', 'attrs': {}, 'related': 'vapp.%s' % rng.choice(vnames)}]})
     evorig.fresh_databases()
     evorig.clear_evolutions()
     models = evorig.install_models(spec)
